@@ -155,7 +155,16 @@ def call(I, name, args, e):
         s = a0; idx = args[1]
         if isinstance(s, SeqV):
             if isinstance(idx, RangeV):
-                hi = idx.hi if idx.hi is not None else seqlen(s.segs)
+                total_ = seqlen(s.segs)
+                hi = idx.hi if idx.hi is not None else total_
+                # slicing refuses lo > hi and hi > len: on the path that continues both bounds hold
+                if is_term(idx.lo) and is_term(hi):
+                    c_ = b_and(cmp('le', idx.lo, hi), cmp('le', hi, total_))
+                    if c_ == FALSE:
+                        I.st.dead = True; return UNIT
+                    if c_ != TRUE:
+                        I.guards.append({'cond': c_, 'sp': e.get('sp'), 'kind': 'slice-bounds'})
+                        I.st.facts.append((c_, None)); sym.refine(c_, I.st.ranges)
                 return RefV(Cell(SliceV(s, idx.lo, hi)))
             if is_term(idx): return RefV(IndexPlace(I, s, idx))
         return I.top('index of %r by %r' % (s, idx), e)
